@@ -75,7 +75,7 @@ T_Block == /\ IsEvent("block")
               \* library; it stays runnable, so nothing is claimed about what it waits for)
               /\ IF ~Known(t) \/ yl \/ ("woken" \in DOMAIN E /\ E.woken) \/ ~CanStep(t) \/ (t \in Tasker /\ cli[t].stage = "reglock") THEN TRUE
                  ELSE IF t \in Client THEN G("blk." \o cli[t].stage, FALSE)
-                 ELSE IF t \in DOMAIN tmr THEN G("blk.timer", FALSE)
+                 ELSE IF t \in DOMAIN tmr THEN G(IF ~Terminated(tmr[t].a) /\ LiveH(tmr[t].a, StrongKinds) THEN "blk.timer.alive" ELSE "blk.timer", FALSE)
                  ELSE IF act[t].pc = "idle" THEN G(IdleReason("blk.loop.", t), FALSE)
                  ELSE IF act[t].pc = "handling" THEN G("blk.loop.handling", FALSE)
                  ELSE G("blk.loop", FALSE)
@@ -94,7 +94,9 @@ T_Exit == /\ IsEvent("exit")
                 ELSE IF t \in DOMAIN tmr
                 THEN /\ G("exit.cur", cur = t /\ ~yl)
                      /\ G(IF act[tmr[t].a].rtaken > 0 /\ tmr[t].inc = act[tmr[t].a].inc THEN "exit.timer.afterrestart"
-                          ELSE IF ~Terminated(tmr[t].a) /\ LiveH(tmr[t].a, StrongKinds) THEN "exit.timer.alive" ELSE "exit.timer",
+                          ELSE IF ~Terminated(tmr[t].a) /\ LiveH(tmr[t].a, StrongKinds)
+                          THEN (IF act[tmr[t].a].tmo >= 0 /\ ~act[tmr[t].a].failto /\ hst.ab[tmr[t].a] # <<>> THEN "exit.timer.alive.aftertimeout" ELSE "exit.timer.alive")
+                          ELSE "exit.timer",
                           tmr[t].st = "ended" /\ E.how = "ready")
                 ELSE \* (the state of the loop is judged first: it names what was skipped; then whose turn it was)
                      /\ G(IF t \in Actor /\ act[t].pc = "idle" /\ act[t].mq = <<>> /\ ~ChanOpen(t) THEN "exit.loop.closed"      \* left without stopped() after the last drop
@@ -120,7 +122,9 @@ T_Yield == /\ IsEvent("yield")
 
 \* an actor with a handler timeout is inside stopped(): a clock mismatch now points at a deadline armed for the callback
 SUT == {a \in Actor : act[a].pc \in {"stopping", "finishing"} /\ act[a].tmo >= 0}
-StopCtx == IF \E a \in SUT : act[a].jh # "none" THEN ".stopping.owning" ELSE IF SUT # {} THEN ".stopping" ELSE ""
+\* ... or a stream-attached actor that was configured with a handler timeout (which does not apply to it) is handling
+StopCtx == IF \E a \in SUT : act[a].jh # "none" THEN ".stopping.owning" ELSE IF SUT # {} THEN ".stopping"
+           ELSE IF \E a \in Actor : act[a].stream /\ act[a].tmo >= 0 /\ act[a].pc = "handling" THEN ".streamtmo" ELSE ""
 T_Advance == /\ IsEvent("advance")
              /\ G("adv.free", cur = None)
              /\ G(IF \E i \in DOMAIN tmr : act[tmr[i].a].pc = "failed" THEN "adv.pending.failed"
@@ -236,7 +240,8 @@ T_HBegin == /\ IsEvent("h_begin")
                /\ G(IF act[a].pc = "failed" THEN "hb.phase.failed." \o act[a].why \o RstStartErr(a)
                     ELSE IF act[a].pc = "dequeued" /\ act[a].curp.k \in {"restart", "stop"} THEN "hb.phase." \o act[a].curp.k \o "." \o act[a].curp.src
                     ELSE IF act[a].pc = "idle" /\ act[a].mq # <<>> /\ Head(act[a].mq).k \in {"restart", "stop"} THEN "hb.phase." \o Head(act[a].mq).k \o "." \o Head(act[a].mq).src
-                    ELSE "hb.phase." \o E.src \o (IF E.src = "broker" /\ act[a].inc > 0 THEN ".restarted" ELSE ""),
+                    ELSE "hb.phase." \o E.src \o (IF E.src = "broker" /\ act[a].inc > 0 THEN ".restarted"
+                                                     ELSE IF E.src = "timer" /\ act[a].pc = "idle" /\ ~ChanOpen(a) THEN ".closed" ELSE ""),
                     act[a].pc = "dequeued" /\ act[a].curp.k = "task" /\ act[a].curp.rs # "ping")
                /\ G("hb.fifo." \o E.src, act[a].curp.m = E.m /\ act[a].curp.src = E.src)
                /\ G("hb.inst", act[a].inst = E.inst /\ act[a].inc = E.inc)
@@ -257,7 +262,7 @@ T_HAbandon == /\ IsEvent("h_abandon")
                  THEN \* (a yield of the handler suspends only the handler future: the select! still sees the Delay)
                       /\ G("ha.cur", cur = a)
                       /\ G("ha.msg", act[a].curp.m = E.m)
-                      /\ G("ha.timeout", TimeoutReady(a))
+                      /\ G(IF act[a].stream THEN "ha.timeout.stream" ELSE "ha.timeout", TimeoutReady(a))
                       /\ TimeoutFire(a) /\ cur' = cur /\ yl' = FALSE
                  ELSE /\ G("ha.dead", act[a].pc = "failed" /\ hst.ab[a] # <<>> /\ hst.ab[a][Len(hst.ab[a])] = E.m)
                       /\ UNCHANGED vars
